@@ -2,10 +2,16 @@
    Only ExtrOcamlBasic (bool, option, list, pairs, unit -> OCaml natives);
    Z, positive, N, nat stay extracted datatypes; no Extract Constant. *)
 From Coq Require Import Extraction ExtrOcamlBasic.
-From PV Require Import Base Heap.
+From PV Require Import Base Heap Rng NND.
 Extraction Language OCaml.
 Set Extraction KeepSingleton.
 Extraction "../ocaml/model.ml"
   Base.upd Base.getZ
   Heap.heap_push Heap.simple_heap_push Heap.checked_heap_push Heap.checked_flagged_heap_push
-  Heap.siftdown Heap.deheap_sort_row Heap.empty_row.
+  Heap.siftdown Heap.deheap_sort_row Heap.empty_row
+  Rng.tau_rand_int Rng.tau_rand Rng.tau_rand_key_of_int
+  NND.make_heap NND.push_row NND.init_rp_tree NND.init_random NND.init_from_neighbor_graph
+  NND.init_heap_from_indices NND.init_heap_from_indices_and_distances
+  NND.new_build_candidates NND.generate_graph_updates NND.generate_leaf_updates
+  NND.apply_graph_updates_low_memory NND.apply_graph_updates_high_memory
+  NND.thresholds NND.deheap_graph NND.nn_descent.
